@@ -21,7 +21,7 @@ def spec_of(op, mo):
         return ("err", sp.get("err"))
     if op["op"] in ("event", "searchRules"):
         if "ok" in sp:
-            return ("ok", canon(sorted(canon({"id": f["id"], "bss": multiset(f["bss"])}) for f in sp["ok"])))
+            return ("ok", canon(sorted(canon({"id": f["id"], "bss": multiset(sort_arrays(f["bss"]))}) for f in sp["ok"])))
         return ("err", sp.get("err"))
     return None
 
@@ -124,7 +124,8 @@ class LocRun:
                     g = got_for_spec(op, mo)
                     if sp is not None and g is not None:
                         self.stats["spec_checked"] += 1
-                        agree = (g == sp) or (g[0] == "ids" and g[1] == spec_ids(sp))
+                        agree = (g == sp) or (g[0] == "ids" and spec_ids(sp) is not None and
+                                              set(json.loads(spec_ids(sp))) <= set(json.loads(g[1])))  # SearchRules returns candidates: a superset
                         if not agree:
                             cls = self.classify(c, k, op, mo, io)
                             if cls:
